@@ -90,6 +90,17 @@ pub fn set_auth(a: &Address, ok: bool) {
     }
     unsafe { AUTH[a.0 as usize] = ok }
 }
+/// no principal's authorisation (standard or custom-argument) is available from here on
+pub fn clear_auths() {
+    let mut i = 0;
+    while i < NPRINC {
+        unsafe {
+            AUTH[i] = false;
+            AUTH_ARGS[i] = false;
+        }
+        i += 1;
+    }
+}
 pub fn auth_of(a: &Address) -> bool {
     if (a.0 as usize) >= NPRINC {
         crate::mfail!("MODEL:principal universe");
